@@ -314,6 +314,8 @@ struct Ctl {
     held: BTreeMap<usize, Held>,
     crashed: bool,
     listing: Option<bool>, // decision for the listing of the current round
+    round_ordered: bool,
+    last_listing: Option<Vec<usize>>, // what an unfaulted listing answers at the moment of the listing boundary
     trace: Vec<String>,    // observable events of the current step
     reports: Vec<(usize, usize, usize, usize)>, // (INFOMGR boundary, key id, src, dst)
     replays: Vec<String>,  // model-program text of every replay performed: boundary-or-step -> event
@@ -851,11 +853,24 @@ type BoxStream<'s, T> = Pin<Box<dyn Stream<Item = T> + Send + 's>>;
 type BoxFut<'s, T> = Pin<Box<dyn Future<Output = T> + Send + 's>>;
 
 impl FakeBroker {
+    // the listing boundary; right after its injections the harness records what an unfaulted listing answers now
+    async fn listing_gate(&self) -> bool {
+        let first = { self.w.ctl.lock().listing.is_none() };
+        let ok = self.w.listing_ok().await;
+        if first {
+            let ordered = { self.w.ctl.lock().round_ordered };
+            let l: Pin<Box<dyn Future<Output = Vec<usize>> + Send + '_>> = Box::pin(oracle_listing(&self.w, ordered));
+            let l = l.await;
+            self.w.ctl.lock().last_listing = Some(l);
+        }
+        ok
+    }
+
     async fn listing<T: Send + 'static>(
         &self,
         f: impl FnOnce(&MetaStore) -> Vec<T>,
     ) -> Vec<Result<T, MetaDataBrokerError>> {
-        if self.faulty && !self.w.listing_ok().await {
+        if self.faulty && !self.listing_gate().await {
             return vec![Err(MetaDataBrokerError::RequestFailed)];
         }
         let st = self.w.store.lock();
@@ -882,7 +897,7 @@ impl MetaDataBroker for FakeBroker {
 
     fn get_cluster<'s>(&'s self, name: ClusterName) -> BoxFut<'s, Result<Option<Cluster>, MetaDataBrokerError>> {
         Box::pin(async move {
-            if self.faulty && !self.w.listing_ok().await {
+            if self.faulty && !self.listing_gate().await {
                 return Err(MetaDataBrokerError::RequestFailed);
             }
             Ok(self.w.store.lock().get_cluster_by_name(name.as_str(), MIGRATION_LIMIT))
@@ -1199,6 +1214,8 @@ async fn run_steps(w: Arc<World>, steps: Vec<Vec<String>>) -> (Vec<String>, Vec<
                     let mut c = w.ctl.lock();
                     c.crashed = false;
                     c.listing = None;
+                    c.round_ordered = ordered;
+                    c.last_listing = None;
                 }
                 let n0 = { w.ctl.lock().boundary };
                 let db = Arc::new(FakeBroker { w: w.clone(), faulty: true });
@@ -1221,11 +1238,12 @@ async fn run_steps(w: Arc<World>, steps: Vec<Vec<String>>) -> (Vec<String>, Vec<
                     sync.run().collect().await
                 };
                 let round_ok = results.iter().all(|r| r.is_ok());
-                let (nb, cr) = {
+                let (nb, cr, addrs) = {
                     let mut c = w.ctl.lock();
                     c.post_commit.clear();
                     c.dst_done.clear();
-                    (c.boundary, c.crashed)
+                    let l = c.last_listing.take().unwrap_or(addrs);
+                    (c.boundary, c.crashed, l)
                 };
                 prog.push(format!(
                     "{} {} {} {}",
@@ -1402,6 +1420,8 @@ pub fn run_case(rt: &tokio::runtime::Runtime, line: &str) -> String {
             held: BTreeMap::new(),
             crashed: false,
             listing: None,
+            round_ordered: false,
+            last_listing: None,
             trace: vec![],
             reports: vec![],
             replays: vec![],
